@@ -122,7 +122,14 @@ def _bool_operand(c, kind, name):
         return 1
     if kind == "k0":
         return 0
+    if kind == "k":                       # any plain integer: outside {0, 1} it is refused where a boolean is required
+        return c.public_int(name)
     raise ValueError(kind)
+
+
+def _kv(c, y):
+    """comparison / conversion operand as a number (a plain int counts by its VALUE here, not by its truth value)"""
+    return c.v(y) if not isinstance(y, int) else term(y)
 
 
 def _bv(c, y):
@@ -224,7 +231,7 @@ class EnsureBool(Contract):
     name = "pysnark.boolean:LinCombBool._ensurebool"
 
     def configs(self, tier):
-        return [dict(mode=m, kind=k) for m in ("plain", "ie", "g0") for k in ("b", "s", "k1")]
+        return [dict(mode=m, kind=k) for m in ("plain", "ie", "g0") for k in ("b", "s", "k1", "k")]
 
     def setup(self, c, cfg):
         apply_mode(c, cfg["mode"])
@@ -264,7 +271,7 @@ class _BoolCmp(Contract):
     modules = ("pysnark.runtime", "pysnark.boolean")
 
     def configs(self, tier):
-        return [dict(mode=m, kind=k, bits=2) for m in ("plain", "g1", "g0") for k in ("b", "s", "k1", "k0")]
+        return [dict(mode=m, kind=k, bits=2) for m in ("plain", "g1", "g0") for k in ("b", "s", "k1", "k0", "k")]
 
     def setup(self, c, cfg):
         apply_mode(c, cfg["mode"], bitlength=cfg["bits"])
@@ -274,14 +281,12 @@ class _BoolCmp(Contract):
         return False
 
     def raises(self, c, x, y):
-        out = []
-        if isinstance(y, c.LinComb):
-            out.append((ValueError, Not(is01(c.v(y)))))
-        return out
+        # a plain integer other than 0 and 1 is not a boolean: comparing with it is refused, never answered
+        return [(ValueError, Not(is01(_kv(c, y))))] if not isinstance(y, c.LinCombBool) else []
 
     def post(self, c, r, x, y):
         return {"V.type": isinstance(r, c.LinCombBool),
-                "V.value": Implies(And(isg(c), is01(c.v(x))), Eq(c.v(r), If(self.rel(c.v(x), _bv(c, y)), 1, 0))),
+                "V.value": Implies(And(isg(c), is01(c.v(x))), Eq(c.v(r), If(self.rel(c.v(x), _kv(c, y)), 1, 0))),
                 "V.inv": c.inv(r)}
 
 
@@ -298,7 +303,7 @@ class _BoolAssert(Contract):
     modules = ("pysnark.runtime", "pysnark.boolean")
 
     def configs(self, tier):
-        return [dict(mode=m, kind=k, bits=2) for m in ("plain", "ie") for k in ("b", "k1", "k0")]
+        return [dict(mode=m, kind=k, bits=2) for m in ("plain", "ie") for k in ("b", "k1", "k0", "k")]
 
     def setup(self, c, cfg):
         apply_mode(c, cfg["mode"], bitlength=cfg["bits"])
@@ -308,12 +313,14 @@ class _BoolAssert(Contract):
         return False
 
     def raises(self, c, x, y, err=None):
-        return [(AssertionError, And(Not(ie(c)), Not(self.rel(c.v(x), _bv(c, y)))))]
+        out = [(AssertionError, And(Not(ie(c)), is01(_kv(c, y)), Not(self.rel(c.v(x), _kv(c, y)))))]
+        if isinstance(y, int):
+            out.append((ValueError, Not(is01(term(y)))))
+        return out
 
     def post(self, c, r, x, y, err=None):
-        ya = _ba(c, y) if not isinstance(y, int) else term(y)
         tied = And(c.tied(x), *([c.tied(y)] if not isinstance(y, int) else []))
-        return {"E.enforced": Implies(And(on(c), tied), self.rel(c.v(x), _bv(c, y)))}
+        return {"E.enforced": Implies(And(on(c), tied), self.rel(c.v(x), _kv(c, y)))}
 
 
 for _n, _rel in (("assert_lt", lambda a, b: a < b), ("assert_le", lambda a, b: a <= b), ("assert_gt", lambda a, b: a > b),
